@@ -167,7 +167,9 @@ pub fn foreign_doc(rng: &mut Rng, max_nodes: usize) -> Vec<u8> {
         if name == "font" && rng.chance(1, 2) && ns != 0 { attrs.push_str(*rng.pick(&[" color=red", " size=1", " face=f", " id=i"])); }
         if rng.chance(1, 4) { attrs.push_str(*rng.pick(&[" id=u", " class=c", " href='x'"])); }
         if ns != 0 && rng.chance(1, 5) {
-            out.extend_from_slice(format!("<{shown}{attrs}/>").as_bytes());
+            // (a space before the slash: after an unquoted attribute value "/" would belong to the value and the element
+            // would not be self-closing, i.e. not explicitly closed)
+            out.extend_from_slice(format!("<{shown}{attrs}{}/>", if attrs.is_empty() { "" } else { " " }).as_bytes());
             return;
         }
         out.extend_from_slice(format!("<{shown}{attrs}>").as_bytes());
